@@ -95,6 +95,9 @@
 (* the client gets NO id (PErr), later shards are not asked.  The start     *)
 (* succeeds (PAcked) iff every shard has a holder.  Replicas other than the *)
 (* holder never saw the request and answer NotFound to a fetch.             *)
+(* SEVERAL REQUESTS WITH THEIR OWN FRACTION LISTS in one directory, and the  *)
+(* boot path that decodes every <id>.info (loadAsyncSearches), are the      *)
+(* subject of AsyncSearchLoader.tla; here the other requests are abstract.  *)
 (* StartRule = "every" is the design and the code; "ignore" is a spec       *)
 (* mutation kept for non-vacuity (AsyncSearch_mut_startignore.cfg): a shard *)
 (* without a holder is passed over and the id is handed out all the same,   *)
